@@ -20,7 +20,9 @@
   * `kill c`             `CLIENT KILL` of `c`, handled in the batch of another connection: `c` is `Closing` at once (not
                          blocked any more, nothing is written to it), but stays registered until `reap c`;
   * `hangupDirty c`      the peer writes bytes and then closes: while `c` is blocked nobody reads them, and a probe that
-                         only peeks (`probeReadsInput` off) sees them instead of the end-of-file behind them.
+                         only peeks (`probeReadsInput` off) sees them instead of the end-of-file behind them; once `c` is
+                         unblocked, `conn c now []` is the read that takes the bytes (the frames kept back for `c` are then
+                         executed, `ghostRun`) and only the read after it finds the end-of-file (`reap c`).
 
   Representation choices (validated by the correspondence run, lib/c13.py):
   * the per-database `HashMap<key, VecDeque<BlockedClient>>` is ONE flat list of `(key, waiter)` in
@@ -418,6 +420,12 @@ deriving DecidableEq, Repr
 def canRun (s : State) (c : Conn) : Bool :=
   c != 0 && !(s.conns c).gone && !(s.conns c).peerClosed && (s.conns c).blocked.isNone
 
+/-- The peer has closed behind bytes the server has not read yet, and the client is not blocked (any more): the next
+    `process_connection` reads those bytes — not yet the end-of-file behind them — so the frames kept back for this
+    client are executed, their replies going nowhere, before the server learns that it has gone. -/
+def ghostRun (s : State) (c : Conn) : Bool :=
+  c != 0 && !(s.conns c).gone && (s.conns c).peerClosed && (s.conns c).unread && (s.conns c).blocked.isNone
+
 /-- The frames of one read, in order; with `deferBatchWhenBlocked` the rest is kept once the client is blocked. -/
 def runBatch (q : Quirks) (now : Nat) (c : Conn) : List Cmd → State → State
   | [], s => s
@@ -432,13 +440,15 @@ def step (q : Quirks) (s : State) : Event → State
   | .conn c now cmds =>
     if canRun s c = true then
       runBatch q now c ((s.conns c).pending ++ cmds) (setConn s c fun cs => { cs with pending := [] })
+    else if ghostRun s c = true then
+      runBatch q now c (s.conns c).pending (setConn s c fun cs => { cs with pending := [], unread := false })
     else s
   | .timeouts now => iter (expireOne now) s.registry.length s
   | .hangup c =>
     if c != 0 && !(s.conns c).gone then setConn s c fun cs => { cs with peerClosed := true } else s
   | .reap c =>
     if c != 0 && !(s.conns c).gone && (s.conns c).peerClosed &&
-        ((s.conns c).blocked.isNone || (q.noticeBlockedHangup && probeSees q s c)) then
+        (((s.conns c).blocked.isNone && !(s.conns c).unread) || (q.noticeBlockedHangup && probeSees q s c)) then
       let s1 := setConn s c fun cs => { cs with gone := true, blocked := none }
       { s1 with registry := s1.registry.filter fun x => x.2.conn != c }
     else s
@@ -511,7 +521,7 @@ def eventOk (q : Quirks) (s : State) : Event → Bool
   | .conn c now cmds =>
     if canRun s c = true then
       batchOk q now c ((s.conns c).pending ++ cmds) (setConn s c fun cs => { cs with pending := [] })
-    else true
+    else !ghostRun s c
   | .hangup c => (s.conns c).blocked.isNone
   | .kill c => (s.conns c).blocked.isNone
   | .hangupDirty c => (s.conns c).blocked.isNone
@@ -583,13 +593,15 @@ def calmReg (s : State) : Bool :=
       without being blocked, which the invariant (`registry ↔ blocked`) does not allow — what the machine does in that
       window is covered by the statements that hold for EVERY history (accounting, FIFO, `wake_queue_empty_always`,
       `exec_atomic_holds`) and by the witnesses of Props/C13.lean;
+    * no frames are executed on behalf of a client that has gone (`ghostRun`: unblocked by a time-out or a wake-up between
+      its `hangupDirty` and the server's next look at its socket);
     * batches as above. -/
 def eventOkF (q : Quirks) (s : State) : Event → Bool
   | .conn c now cmds =>
     calmReg s &&
     (if canRun s c = true then
       batchOkF q now c ((s.conns c).pending ++ cmds) (setConn s c fun cs => { cs with pending := [] })
-    else true)
+    else !ghostRun s c)
   | .hangup c => (s.conns c).blocked.isNone || (q.noticeBlockedHangup && q.wakeChecksClient)
   | .kill c => (s.conns c).blocked.isNone
   | .hangupDirty c => (s.conns c).blocked.isNone || (q.noticeBlockedHangup && q.wakeChecksClient && q.probeReadsInput)
